@@ -9,7 +9,8 @@ wrappers; the model predicts the gate / converter outcome from a copy of the bot
 property oracle ("no effect other than an error reply; nothing at all when ignored") is evaluated
 on the implementation alone: state snapshot before = after, the command body did not run, the
 output is at most one error reply."""
-import io, json, os, re, sys, threading, time
+import io, json, os, re, sys, threading, time, warnings
+warnings.filterwarnings('ignore', category=SyntaxWarning)
 from vlib import wire, rng, leanbuild, verdict, bot, VERIF
 from vlib.verdict import Case
 
@@ -21,12 +22,14 @@ MANIFEST = {
  'design_ref': 'DESIGN.md §6 C01',
 }
 THEOREMS = [
- 'C01.gate_allow_iff', 'C01.gate_forbidden', 'C01.gate_forbidden_channel', 'C01.gate_checks_plugin',
+ 'C01.gate_allow_iff', 'C01.gate_name_mismatch', 'C01.gate_forbidden', 'C01.gate_forbidden_channel', 'C01.gate_checks_plugin',
  'C01.check_antiowner', 'C01.gate_antiowner', 'C01.gate_antiplugin', 'C01.gate_antiadmin',
- 'C01.converter_guard', 'C01.converter_guard_chan', 'C01.invoke_body_requires',
- 'C01.ignored_silent', 'C01.config_write_guard', 'C01.readonly_never_written',
- 'C01.defaults_have_antiowner', 'C01.shipped_defaults_ok',
- 'C01.required_present', 'C01.owner_admin_rows_ungated_by_spec_ok', 'C01.callgraph_ok', 'C01.gate_shape_ok',
+ 'C01.converter_guard', 'C01.converter_guard_noowner', 'C01.converter_guard_chan', 'C01.chancap_first_channel',
+ 'C01.invoke_body_requires', 'C01.owner_plugin_body_needs_owner', 'C01.guarded_body_needs_capability',
+ 'C01.ignored_silent', 'C01.dispatch_requires_not_ignored', 'C01.ignore_flag_ignored', 'C01.ignores_db_ignored',
+ 'C01.config_write_guard', 'C01.readonly_never_written',
+ 'C01.defaults_have_antiowner', 'C01.defaults_drop_owner', 'C01.shipped_defaults_ok',
+ 'C01.required_present', 'C01.plugin_names_canonical', 'C01.callgraph_ok', 'C01.gate_shape_ok',
 ]
 TRUSTED = ['Lean 4.33.0 kernel; axioms ⊆ {propext, Classical.choice, Quot.sound}',
            'harness/extractors/commands.py (command inventory, call graph, gate shape → Gen/Commands.lean) and harness/extractors/ircdb_caps.py',
